@@ -101,6 +101,11 @@ func (m *M) StepRef(in StepInputs) (consumed bdd.Node) {
 // ExecOpaque records "the decoder runs from the current register state with
 // the given memory in effect" and havocs the registers.
 func (m *M) ExecOpaque(in StepInputs, memDesc string) {
+	for i, l := range in.Leaves {
+		if _, ok := m.width[l]; !ok {
+			m.width[l] = in.Widths[i] // a CPU field the reference does not know: havocked like the rest
+		}
+	}
 	m.T.Emit(m.guard, KindExec, memDesc, nil, 0, "ref")
 	for i, l := range in.Leaves {
 		m.Set(l, m.C.Atom("PostExec("+l+")", in.Widths[i]))
